@@ -6,6 +6,7 @@ package main
 // KMS envelope AEAD (NewKMSEnvelopeAEAD2 and a KmsEnvelopeAeadKey keyset with a registered client).
 
 import (
+	"context"
 	"fmt"
 	"strings"
 	"sync"
@@ -308,6 +309,8 @@ type target struct {
 	Keys  []keyCfg // keyset: the keys, first = primary; envelope: the remote (KEK) keyset
 	DEK   string   // envelope: name of the DEK template
 	Env   keyCfg   // envelope, route kmskeyset: Variant/ID of the KmsEnvelopeAeadKey inside its keyset
+	RKind string   // envelope: kind of remote AEAD: "tink" (the keyset AEAD itself) | "padded" (size-controlled)
+	PadTo int      // padded remote: exact size of every encrypted DEK it returns
 	a     tink.AEAD
 }
 
@@ -321,6 +324,72 @@ func (t *target) envPrefix() []byte {
 
 func (t *target) primary() keyCfg { return t.Keys[0] }
 
+func (t *target) rkind() string {
+	if t.RKind == "" {
+		return "tink"
+	}
+	return t.RKind
+}
+
+// paddedRemote is the harness's size-controlled remote AEAD (Envelope.tla, remote kind "padded"): it wraps
+// a real Tink AEAD and returns be16(|inner|) || inner || zero padding of exactly `total` bytes; it opens
+// only strings of exactly that size with all-zero padding.
+type paddedRemote struct {
+	inner tink.AEAD
+	total int
+}
+
+func (p *paddedRemote) Encrypt(pt, ad []byte) ([]byte, error) {
+	c, err := p.inner.Encrypt(pt, ad)
+	if err != nil {
+		return nil, err
+	}
+	if 2+len(c) > p.total {
+		return nil, fmt.Errorf("padded remote: %d bytes do not fit %d", len(c), p.total)
+	}
+	out := make([]byte, p.total)
+	out[0], out[1] = byte(len(c)>>8), byte(len(c))
+	copy(out[2:], c)
+	return out, nil
+}
+
+func (p *paddedRemote) Decrypt(c, ad []byte) ([]byte, error) {
+	if len(c) != p.total || len(c) < 2 {
+		return nil, fmt.Errorf("padded remote: wrong size")
+	}
+	n := int(c[0])<<8 | int(c[1])
+	if 2+n > len(c) {
+		return nil, fmt.Errorf("padded remote: bad length")
+	}
+	for _, b := range c[2+n:] {
+		if b != 0 {
+			return nil, fmt.Errorf("padded remote: bad padding")
+		}
+	}
+	return p.inner.Decrypt(c[2:2+n], ad)
+}
+
+// with-context forms (NewKMSEnvelopeAEADWithContext)
+type ctxRemote struct{ a tink.AEAD }
+
+func (c ctxRemote) EncryptWithContext(_ context.Context, pt, ad []byte) ([]byte, error) {
+	return c.a.Encrypt(pt, ad)
+}
+func (c ctxRemote) DecryptWithContext(_ context.Context, ct, ad []byte) ([]byte, error) {
+	return c.a.Decrypt(ct, ad)
+}
+
+type noCtx struct {
+	a *aead.KMSEnvelopeAEADWithContext
+}
+
+func (n noCtx) Encrypt(pt, ad []byte) ([]byte, error) {
+	return n.a.EncryptWithContext(context.Background(), pt, ad)
+}
+func (n noCtx) Decrypt(ct, ad []byte) ([]byte, error) {
+	return n.a.DecryptWithContext(context.Background(), ct, ad)
+}
+
 // layout of what t.Encrypt emits (aiming mutations only)
 func (t *target) dekCfg() keyCfg {
 	c := dekByName(t.DEK).Cfg
@@ -333,7 +402,8 @@ func (t *target) ev(name string) vt.Ev {
 	for i, k := range t.Keys {
 		ks[i] = k.j()
 	}
-	e := vt.Ev{"ev": name, "mode": t.Mode, "route": t.Route, "keys": ks, "dek": "", "dekTmpl": t.DEK, "ep": vt.Hex(t.envPrefix())}
+	e := vt.Ev{"ev": name, "mode": t.Mode, "route": t.Route, "keys": ks, "dek": "", "dekTmpl": t.DEK, "ep": vt.Hex(t.envPrefix()),
+		"rkind": t.rkind(), "padTo": t.PadTo}
 	if t.Mode == "envelope" {
 		e["dek"] = dekByName(t.DEK).Cfg.KT
 	}
@@ -380,7 +450,7 @@ func (t *target) build() error {
 		}
 	case "subtle":
 		t.a, err = subtleAEAD(t.Keys[0])
-	case "envelope2", "kmskeyset":
+	case "envelope2", "envelopectx", "kmskeyset":
 		var h *keyset.Handle
 		var kek tink.AEAD
 		if h, err = handleOf(t.Keys, false); err != nil {
@@ -390,8 +460,19 @@ func (t *target) build() error {
 			return err
 		}
 		tmpl := dekByName(t.DEK).Tmpl()
+		if t.rkind() == "padded" {
+			kek = &paddedRemote{inner: kek, total: t.PadTo}
+		}
 		if t.Route == "envelope2" {
 			t.a = aead.NewKMSEnvelopeAEAD2(tmpl, kek)
+			return nil
+		}
+		if t.Route == "envelopectx" {
+			var wc *aead.KMSEnvelopeAEADWithContext
+			if wc, err = aead.NewKMSEnvelopeAEADWithContext(tmpl, ctxRemote{kek}); err != nil {
+				return err
+			}
+			t.a = noCtx{wc}
 			return nil
 		}
 		kmsOnce.Do(func() { registry.RegisterKMSClient(kms) })
